@@ -113,6 +113,8 @@ pub fn requests(reduced: bool) -> Vec<Req> {
     add("hover".into(), "textDocument/hover", json!({"textDocument": td(&u("1")), "position": pos(0, 0)}));
     add("formatting(bad-params)".into(), "textDocument/formatting", json!({"bogus": true}));
     add("$/unknown".into(), "$/unknown", json!({}));
+    // the lifecycle request in the middle of a session: what follows it still has to be answered
+    add("shutdown".into(), "shutdown", Value::Null);
     // an edit notification, so that sequences contain stale code-action ids / changed texts
     out.push(Req {
         name: "didChange(1)".into(),
@@ -178,16 +180,32 @@ impl Session {
     fn request(&mut self, method: &str, params: Value) -> (usize, usize, bool, Vec<Value>, Vec<Message>) {
         self.next_id += 1;
         let id = self.next_id;
-        self.client.sender.send(Message::Request(Request { id: id.into(), method: method.into(), params })).unwrap();
+        // (a loop that has ended takes no more messages: the request then simply has no response)
+        if self.client.sender.send(Message::Request(Request { id: id.into(), method: method.into(), params })).is_err() {
+            return (0, 0, false, vec![], vec![]);
+        }
         let mut h = None;
         let mut loop_done = false;
         while h.is_none() || !loop_done {
-            match self.wait() {
-                Ev::Spawned(hh) => h = Some(hh),
-                Ev::Loop(_) => loop_done = true,
+            // the loop hands every request to a worker; one that it serves itself (no worker within
+            // 3 s of "handled") or never handles is judged by its responses alone
+            let patience = if loop_done { Duration::from_secs(2) } else { Duration::from_secs(5) };
+            match self.rx.recv_timeout(patience) {
+                Ok(Ev::Spawned(hh)) => h = Some(hh),
+                Ok(Ev::Loop(_)) => {
+                    loop_done = true;
+                    // (the spawn hook fires on the loop thread before "handled": no worker will come)
+                    if h.is_none() {
+                        break;
+                    }
+                }
+                Err(_) => break,
             }
         }
-        let joined = h.unwrap().join();
+        let joined = match h {
+            Some(h) => h.join(),
+            None => Ok(true),
+        };
         let mut n = 0;
         let mut errs = 0;
         let mut results = vec![];
@@ -207,15 +225,19 @@ impl Session {
         (n, errs, joined.is_err(), results, other)
     }
     fn notify(&mut self, method: &str, params: Value) -> bool {
-        self.client.sender.send(Message::Notification(Notification { method: method.into(), params })).unwrap();
-        match self.wait() {
-            Ev::Loop(p) => p,
-            _ => panic!("reqs harness: unexpected event"),
+        // (a loop that has ended takes no more messages)
+        if self.client.sender.send(Message::Notification(Notification { method: method.into(), params })).is_err() {
+            return false;
+        }
+        match self.rx.recv_timeout(Duration::from_secs(10)) {
+            Ok(Ev::Loop(p)) => p,
+            Ok(_) => panic!("reqs harness: unexpected event"),
+            Err(_) => false,
         }
     }
     fn finish(mut self) -> (bool, bool) {
         let (n, _, _, _, _) = self.request("shutdown", Value::Null);
-        self.client.sender.send(Message::Notification(Notification { method: "exit".into(), params: Value::Null })).unwrap();
+        let _ = self.client.sender.send(Message::Notification(Notification { method: "exit".into(), params: Value::Null }));
         let ok = self.server.take().unwrap().join().unwrap_or(false);
         hooks::install(None);
         (n == 1, ok)
